@@ -84,7 +84,14 @@ static void v_sha2_transform_wrong(struct sha2_ctx_s *ctx, const uint8_t *blocks
 static inline void a_real_transform(sha2_ctx_t *ctx, const uint8_t *blocks, size_t nblocks) {
 	sha2_transform(ctx, blocks, blocks + nblocks * A_BLK);
 }
-#define a_scratch(off)	((off) >= offsetof(sha2_ctx_t, W) && (off) < offsetof(sha2_ctx_t, W) + sizeof(((sha2_ctx_t *)0)->W))
+/* everything except the chaining state and the schedule W[] must stay as it was */
+#define a_frame_check(c, b)	do { \
+	V_ASSERT((c)->count == (b)->count && (c)->count_hi == (b)->count_hi, "FRAME transform leaves the counters alone"); \
+	V_ASSERT((c)->hash_size == (b)->hash_size && (c)->block_size == (b)->block_size, "FRAME transform leaves the sizes alone"); \
+	for (size_t i_ = 0; i_ < SHA2_MSG_BLK_MAX_64CNT; i_++) \
+		V_ASSERT((c)->buffer[i_] == (b)->buffer[i_], "FRAME transform leaves the input buffer alone"); \
+	for (size_t i_ = (A_STW * sizeof(a_word_t)) / 8; i_ < 8; i_++) \
+		V_ASSERT((c)->hash[i_] == (b)->hash[i_], "FRAME 32-bit variants leave the upper half of hash[] alone"); } while (0)
 /* xform.c: the dispatcher looks at block_size; hash_size is irrelevant to the transform but must be a legal value */
 #define a_xform_prepare(c)	do { (c)->block_size = A_BLK; } while (0)
 #endif
